@@ -212,6 +212,64 @@ def genDefs (g : G) : List Bytes → List Blk × List (Bytes × Bytes × Option 
     let (bs, env, g) := genDefs g ls
     (Blk.refdef l d title :: bs, (l, d, title) :: env, g)
 
+/-! ### The formatter's supported construct set (`FDoc`, DESIGN.md §7) -/
+
+def wordOK (first : Bool) (b : Bytes) : Bool :=
+  -- a line must not begin (after unescaping) with `+`, or with digits followed by `.` or `)`
+  !first || !(b.head? == some 0x2B ||
+    (let ds := b.takeWhile isASCIIDigit; !ds.isEmpty && ((b.drop ds.length).head? == some 0x2E || (b.drop ds.length).head? == some 0x29)))
+
+mutual
+def fInl : Inl → Bool
+  | .word _ => true
+  | .code _ => true
+  | .emph ks => fInls ks
+  | .strong ks => fInls ks
+  | .link ks _ t => fInls ks && (match t with | some t => !t.contains 0x22 | none => true)
+  | .image ks _ t => fInls ks && (match t with | some t => !t.contains 0x22 | none => true)
+  | .reflink ks _ => fInls ks
+  | .autolink _ => true
+  | .rawtag _ => true
+  | .entity _ _ => true
+  | .hardbreak => true
+  | .softbreak => true
+def fInls : List Inl → Bool
+  | [] => true
+  | k :: ks => fInl k && fInls ks
+end
+
+/-- Words that begin a line (the first item and every item after a break). -/
+def lineStartsOK : List Inl → Bool → Bool
+  | [], _ => true
+  | .word b :: rest, atStart => wordOK atStart b && lineStartsOK rest false
+  | .hardbreak :: rest, _ => lineStartsOK rest true
+  | .softbreak :: rest, _ => lineStartsOK rest true
+  | _ :: rest, _ => lineStartsOK rest false
+
+def oneLine (ks : List Inl) : Bool := ks.all fun k => match k with | .softbreak => false | .hardbreak => false | _ => true
+
+mutual
+def fBlk : Blk → Bool
+  | .para ks => fInls ks && lineStartsOK ks true
+  | .atx _ ks => fInls ks
+  | .setext _ ks => fInls ks && oneLine ks && lineStartsOK ks true
+  | .hr => true
+  | .fenced _ _ => true
+  | .indented _ => true
+  | .quote ks => fBlks ks
+  | .list _ tight items => fItems tight items
+  | .html _ => true
+  | .refdef _ d t => !d.contains 0x20 && !d.isEmpty && !d.contains 0x3C && (match t with | some t => !t.contains 0x22 | none => true)
+def fBlks : List Blk → Bool
+  | [] => true
+  | b :: bs => fBlk b && fBlks bs
+def fItems (tight : Bool) : List (List Blk) → Bool
+  | [] => true
+  | it :: its => fBlks it && (!tight || it.length == 1) && fItems tight its
+end
+
+def inFDoc (d : Doc) : Bool := fBlks d
+
 structure GenResult where
   doc : Doc
   env : Env
